@@ -375,8 +375,11 @@ def record_traces2(ctx, nruns, nsteps):
 
 def run2d(ctx):
     quick = ctx.quick()
-    r = vlib.tlc("MCAbf2D", "MCAbf2D_mc_quick.cfg" if quick else "MCAbf2D_mc_thorough.cfg", workers=16, timeout=3000)
+    r = vlib.tlc("MCAbf2D", "MCAbf2D_mc_quick.cfg", workers=16, timeout=3000)
     ctx.add_tlc(r, "MCAbf2D properties")
+    if not quick and not r.violation:
+        r = vlib.tlc("MCAbf2D", "MCAbf2D_mc_thorough.cfg", workers=16, timeout=3000, xmx="24g")
+        ctx.add_tlc(r, "MCAbf2D properties (one action deeper, delayed-force convention)")
     if r.violation:
         ctx.violation("model2d:" + r.violation, "design-level invariant %s violated in spec/Abf2D.tla" % r.violation, {"tlc": vlib.counterexample(r)})
         return
